@@ -91,28 +91,40 @@ def introspected():
     return out
 
 
-def eigensolver_diverges(f, seed):
-    """Diagnosis for spectral_clustering: record what the sparse eigensolver (ARPACK through
-    scipy.sparse.linalg.eigsh) returns in two consecutive calls with identical matrix, k and start vector.
-    True when the eigenvectors differ although every argument is the same: the solver then depends on state
-    hidden inside ARPACK (its restart vector generator keeps a Fortran SAVE'd seed across calls)."""
-    import numpy as np
-    import xgi.communities.spectral as sp
-    rec = []
-    orig = sp.eigsh
-    def spy(L, *a, **kw):
-        out = orig(L, *a, **kw)
-        v0 = kw.get("v0")
-        rec.append((L.toarray().tobytes(), a, kw.get("k"), None if v0 is None else np.asarray(v0).tobytes(), np.asarray(out[1]).tobytes()))
-        return out
-    sp.eigsh = spy
-    try:
-        for _ in range(12):
-            f(seed)
-    finally:
-        sp.eigsh = orig
-    same_args = all(r[:4] == rec[0][:4] for r in rec)
-    return same_args and any(r[4] != rec[0][4] for r in rec)
+class EigSpy:
+    """Records what the sparse eigensolver (ARPACK through scipy.sparse.linalg.eigsh) is given and returns, for
+    every call made by xgi.communities.spectral while the spy is installed."""
+    def __init__(self):
+        self.rec = []
+    def __enter__(self):
+        import numpy as np
+        import xgi.communities.spectral as sp
+        self.sp, self.orig = sp, sp.eigsh
+        def spy(L, *a, **kw):
+            out = self.orig(L, *a, **kw)
+            v0 = kw.get("v0")
+            self.rec.append(((L.toarray().tobytes(), repr(a), kw.get("k"), None if v0 is None else np.asarray(v0).tobytes()),
+                             np.asarray(out[1]).tobytes()))
+            return out
+        sp.eigsh = spy
+        return self
+    def __exit__(self, *exc):
+        self.sp.eigsh = self.orig
+        return False
+
+
+def spied(f, seed):
+    """(result, eigensolver records of this very call)"""
+    with EigSpy() as spy:
+        out = snap(f(seed))
+    return out, list(spy.rec)
+
+
+def eigensolver_explains(ra, rb):
+    """the two calls handed the eigensolver byte-identical arguments and got different eigenvectors back: the
+    difference between the two results then comes from state hidden inside ARPACK (its restart-vector generator
+    keeps a Fortran SAVE'd seed across calls), not from the Python code"""
+    return len(ra) == len(rb) and len(ra) > 0 and all(x[0] == y[0] for x, y in zip(ra, rb)) and any(x[1] != y[1] for x, y in zip(ra, rb))
 
 
 def perturb(rng, table):
@@ -175,10 +187,11 @@ def run(v):
             warnings.simplefilter("ignore")
             Hk = xgi.Hypergraph([[0, 6], [1, 5], [2, 3], [4, 8], [6, 7], [1, 6, 8]])
             fk = lambda s: xgi.spectral_clustering(Hk, 3, seed=s)
-            outs = [snap(fk(0)) for _ in range(12)]
+            outs = [spied(fk, 0) for _ in range(12)]
             ncalls += 12
-            if any(o != outs[0] for o in outs):
-                sig = "spectral_clustering:eigensolver-hidden-state" if eigensolver_diverges(fk, 0) else "spectral_clustering"
+            diff = [o for o in outs if o[0] != outs[0][0]]
+            if diff:
+                sig = "spectral_clustering:eigensolver-hidden-state" if eigensolver_explains(outs[0][1], diff[0][1]) else "spectral_clustering"
                 failures.append((f"{PROP}:{sig}", {"what": "spectral_clustering(H, 3, seed=0) returns different clusterings on repeated calls",
                                                    "function": "spectral_clustering/known", "seed": 0,
                                                    "args": {"nodes": list(Hk.nodes), "edges": [sorted(e) for e in Hk.edges.members()], "k": 3}}))
@@ -197,16 +210,18 @@ def run(v):
                 with warnings.catch_warnings():
                     warnings.simplefilter("ignore")
                     try:
-                        a = snap(f(seed))
+                        is_spec = name.startswith("spectral_clustering")
+                        a, ra = spied(f, seed) if is_spec else (snap(f(seed)), None)
                         ok = True
+                        rb = None
                         for _ in range(4 if thorough else 2):
                             perturb(rng, table)
-                            b = snap(f(seed))
+                            b, rb = spied(f, seed) if is_spec else (snap(f(seed)), None)
                             ncalls += 1
                             if a != b:
                                 ok = False
                                 break
-                        if not ok and name.startswith("spectral_clustering") and eigensolver_diverges(f, seed):
+                        if not ok and is_spec and eigensolver_explains(ra, rb):
                             failures.append((f"{PROP}:spectral_clustering:eigensolver-hidden-state",
                                              {"what": "spectral_clustering: scipy's ARPACK eigensolver returns different eigenvectors for identical arguments (matrix, k, seeded start vector)",
                                               "function": name, "seed": seed, "round": rd, "args": getattr(f, "args", None)}))
